@@ -42,7 +42,7 @@ ObsOk(q, o) == LET x == ExpectDec(q, o[1]) IN DCloseAbs(o[2], x, DTol(o[4]), DMu
 
 \* ---- the enumerated scenario space of the quantifier
 NMs == {R(1, 10000), R(1, 1000), R(3, 250), R(1, 10)}               \* 1e-4 .. 1e-1 mol/g
-Cs == {4, 9, 49, 100, 400, 1600, 1936}                                 \* perfect squares in 2 .. 2000
+Cs == {4, 9, 49, 100, 400, 1600, 1936, 2000}                           \* 2 .. 2000 (perfect squares except the last)
 Ks == {R(1, 2), R(3, 1), R(25, 1), R(500, 1)}                          \* 0.5 .. 500
 Sigmas == {R(81, 500), R(71, 500), R(1, 5)}                            \* N2 0.162, Ar 0.142, 0.2 nm2
 Slopes == {R(1, 2), R(7, 3), R(40, 1)}   Icepts == {RInt(0), R(5, 4), R(12, 1)}
@@ -50,11 +50,14 @@ Vts == {R(1, 10), R(9, 20), R(6, 5)}   Epss == {R(3000, 1), R(8000, 1), R(20000,
 Exps == {RInt(1), R(6, 5), R(3, 2), RInt(2), R(5, 2), RInt(3)}
 Uniform(n, a, step, den) == [j \in 1..n |-> R(a + (j - 1) * step, den)]
 GridFams == {Uniform(5, 5, 5, 100), Uniform(8, 5, 4, 100), Uniform(20, 2, 4, 100), Uniform(95, 1, 1, 100),
+             Uniform(99, 1, 1, 100), Uniform(66, 3, 3, 200),          \* dense up to 0.99: Rouquerol steps of a few 1e-6 for high C
              Uniform(100, 1, 1, 200), Uniform(12, 1, 2, 40), [j \in 1..18 |-> R((j + 1) * (j + 1), 400)]}
 
 Step(q) ==
   CASE q.k = "gen" -> [ok |-> TRUE, points |-> Points(q), expect |-> Expect(q), bad |-> {}]
-    [] q.k = "judge" -> LET B == {q.obs[j][1] : j \in {jj \in 1..Len(q.obs) : ~ObsOk(q, q.obs[jj])}}
+    [] q.k = "judge" -> LET B0 == {q.obs[j][1] : j \in {jj \in 1..Len(q.obs) : ~ObsOk(q, q.obs[jj])}}
+                            \* q.win: the automatic (Rouquerol) window the call reported, <<-1, -1>> when not applicable
+                            B == B0 \cup (IF q.win[1] >= 0 /\ <<q.win[1], q.win[2]>> \notin RoqWindows(q.ps) THEN {"rouquerol_window"} ELSE {})
                         IN [ok |-> B = {}, points |-> <<>>, expect |-> Expect(q), bad |-> B]
     [] q.k = "space" -> [ok |-> TRUE, points |-> <<>>, bad |-> {},
                          expect |-> [nm |-> NMs, c |-> Cs, kk |-> Ks, sigma |-> Sigmas, s |-> Slopes, i |-> Icepts,
